@@ -49,10 +49,15 @@ func (o *operation) GetEntry() ipfslog.Entry {
 }
 
 func (o *operation) GetDocs() []OpDoc {
-	ret := make([]OpDoc, len(o.Docs))
+	ret := make([]OpDoc, 0, len(o.Docs))
 
-	for i, val := range o.Docs {
-		ret[i] = val
+	for _, val := range o.Docs {
+		// a batch decoded from `"docs":[null]` holds a nil member: not a document
+		if val == nil {
+			continue
+		}
+
+		ret = append(ret, val)
 	}
 
 	return ret
